@@ -70,7 +70,7 @@ fn u16_to_ne_bytes(x: u16) -> (r: [u8; 2]) ensures u16_of(r[0], r[1]) == x as in
 //@struct file=yarel/src/compiler.rs name=Local
 //@struct file=yarel/src/compiler.rs name=Upvalue
 //@enum file=yarel/src/compiler.rs name=CompilerError
-//@enum file=yarel/src/compiler.rs name=FunctionKind
+//@enum file=yarel/src/compiler.rs name=FunctionKind eq=1
 //@struct file=yarel/src/object.rs name=ObjFunction
 //@struct file=yarel/src/chunk.rs name=Chunk map "HashMap<Value, usize>" => "ConstMap"
 //@struct file=yarel/src/compiler.rs name=Compiler
@@ -880,7 +880,6 @@ impl Parser {
     //@  subst "OpCode::Nil as u8" => "opcode_u8(OpCode::Nil)"
     //@  subst "OpCode::JumpFinally as u8" => "opcode_u8(OpCode::JumpFinally)"
     //@  subst "OpCode::Return as u8" => "opcode_u8(OpCode::Return)"
-    //@  subst "self.compiler().kind == FunctionKind::Initialiser" => "function_kind_is_initialiser(&self.compiler().kind)"
     //@  requires old(self).pwf()
     //@  ensures final(self).pwf(), old(self).same_but_code(final(self))
     //@  ensures final(self).code().len() >= old(self).code().len() + 2 && final(self).code().subrange(0, old(self).code().len() as int) == old(self).code()
